@@ -142,8 +142,140 @@ def sid_call(j):
     raise RuntimeError("unknown sid method " + m)
 
 
+def _roots():
+    out = {}
+    for name in conf.path_configs.keys():
+        pc = get_path_config(name)
+        root = getattr(pc, "project_server_root_path", None) if name != "local" else None
+        out[name] = str(root or pc.project_root_path)
+    return out
+
+
+def _enc(name):
+    if name == "uri":
+        return lambda x: x.uri
+    if name == "none":
+        return lambda x: None
+    return str
+
+
+def _jtext(v):
+    return json.dumps(v, sort_keys=True, ensure_ascii=False)
+
+
+def world_op(j):
+    import shutil
+    from pathlib import Path
+    from spil import WriteToPaths, GetFromPaths, FindInPaths, FindInAll, GetFromAll
+    do = j["do"]
+    config = j.get("config")
+    if do == "new":
+        for r in _roots().values():
+            shutil.rmtree(r, ignore_errors=True)
+        return True
+    if do == "dump":
+        nodes, sides = [], []
+        suffix = conf.path_data_suffix
+        for r in sorted(set(_roots().values())):
+            if not os.path.exists(r):
+                continue
+            for base, dirs, files in os.walk(r):
+                nodes.append([to_canon(base.replace(os.sep, "/")), "dir"])
+                for f in files:
+                    full = os.path.join(base, f).replace(os.sep, "/")
+                    if f.startswith(".") and f.endswith(suffix):
+                        try:
+                            with open(full) as fh:
+                                dd = json.load(fh)
+                            sides.append([to_canon(full), sorted([k, _jtext(v)] for k, v in dd.items())])
+                        except Exception:
+                            sides.append([to_canon(full), "corrupt"])
+                    elif f.startswith(".") and f.endswith(".tmp"):
+                        continue
+                    else:
+                        nodes.append([to_canon(full), "file"])
+                for dn in list(dirs):
+                    if dn.startswith(".") and dn.endswith(suffix):   # a planted directory in place of a sidecar
+                        sides.append([to_canon(os.path.join(base, dn).replace(os.sep, "/")), "corrupt"])
+                        dirs.remove(dn)
+        return {"nodes": sorted(nodes), "sidecars": sorted(sides, key=lambda x: x[0])}
+    if do in ("create", "update"):
+        data = None if j.get("data") is None else {k: json.loads(v) for k, v in j["data"]}
+        w = WriteToPaths(config)
+        if do == "create":
+            return bool(w.create(j["sid"], data))
+        return bool(w.update(j["sid"], data or {}))
+    if do == "plant":
+        p = Path(to_real(j["path"]))
+        if j["kind"] == "file":
+            p.parent.mkdir(parents=True, exist_ok=True)
+            p.touch()
+        elif j["kind"] == "dir":
+            p.mkdir(parents=True, exist_ok=True)
+        else:
+            p.parent.mkdir(parents=True, exist_ok=True)
+            how = j.get("how", "garbage")
+            if p.is_dir():
+                shutil.rmtree(p)
+            if how == "dir":
+                if p.exists():
+                    p.unlink()
+                p.mkdir()
+            elif how == "empty":
+                p.write_text("")
+            elif how == "truncate" and p.exists():
+                t = p.read_text()
+                p.write_text(t[:max(0, j.get("at", len(t) // 2))])
+            else:
+                p.write_text("{ this is not json")
+        return True
+    if do == "get_data":
+        g = GetFromPaths(config)
+        r = g.get_data(j["sid"], attributes=j.get("attributes") or None, sid_encode=_enc(j.get("enc", "str")))
+        out = []
+        for k, v in r.items():
+            if k == "sid" and j.get("enc", "str") != "none" and isinstance(v, str):
+                out.append([k, v])
+            else:
+                out.append([k, None if (v is None and j.get("attributes")) else _jtext(v)])
+        return out
+    if do == "getter_paths":
+        g = GetFromPaths(config)
+        recs = []
+        enc = j.get("enc", "str")
+        for r in g.get(j["s"], attributes=j.get("attributes") or None, sid_encode=_enc(enc)):
+            out = []
+            for k, v in r.items():
+                if k == "sid" and enc != "none" and isinstance(v, str):
+                    out.append([k, v])
+                else:
+                    out.append([k, None if (v is None and j.get("attributes")) else _jtext(v)])
+            recs.append(out)
+        return recs
+    if do == "find_paths":
+        return sorted(FindInPaths(config).find(j["s"], as_sid=False))
+    if do == "find_all":
+        return sorted(FindInAll().find(j["s"], as_sid=False))
+    x = Sid(j["sid"])
+    if do == "sid_exists":
+        return bool(x.exists())
+    if do == "children":
+        return sorted(str(y) for y in x.children())
+    if do == "siblings":
+        return sorted(str(y) for y in x.siblings())
+    if do == "get_last":
+        return jsid(x.get_last(j.get("key")))
+    if do == "get_next":
+        return jsid(x.get_next("version"))
+    if do == "get_new":
+        return jsid(x.get_new("version"))
+    raise RuntimeError("unknown world op " + do)
+
+
 def step(j):
     op = j["op"]
+    if op == "world":
+        return world_op(j)
     if op == "resolve_first":
         label, data = resolver_of(j["r"]).resolve_first(to_real(j["s"]))
         return None if not label else [label, jdict(data)]
